@@ -71,21 +71,27 @@ def compare_drift(cases, obs_path):
     return n, drift
 
 
-def pipeline(ctx, pid, gens, tconsts, nontrivial, rule):
-    """gens: list of (name, cases). Runs harness, judges, records evidence and violations for property pid."""
+def pipeline(ctx, pid, gens, tconsts, nontrivial, rule, name="subs", unit_us=None):
+    """gens: list of (name, cases). Runs harness, judges, records evidence and violations for property pid.
+    unit_us: microseconds per model clock unit (default: the engine's one second); a second call with another unit
+    (and another `name`) adds to the evidence of the first."""
     all_cases = []
-    for name, cases in gens:
+    for gname, cases in gens:
         for c in cases:
             c["case"] = len(all_cases) + 1
-            c["gen"] = name
+            c["gen"] = gname
+            if unit_us:
+                c["unit_us"] = unit_us
             all_cases.append(c)
     if ctx.replay:
         rp = json.load(open(ctx.replay))
+        if rp["case"].get("unit_us") != unit_us:
+            return [], [], []
         all_cases = [rp["case"]]
         all_cases[0]["case"] = 1
-    cpath = ctx.write_cases("subs", all_cases)
-    obs = ctx.run("subs", cpath)
-    verdicts = ctx.judge("subs", "TraceSubs", obs, dict(tconsts, Mons={pid}))
+    cpath = ctx.write_cases(name, all_cases)
+    obs = ctx.run("subs", cpath, name=name)
+    verdicts = ctx.judge(name, "TraceSubs", obs, dict(tconsts, Mons={pid}))
     nsteps, drift = compare_drift(all_cases, obs)
     by_case = {c["case"]: c for c in all_cases}
     mine = [v for v in verdicts if v["prop"] == pid]
@@ -93,7 +99,8 @@ def pipeline(ctx, pid, gens, tconsts, nontrivial, rule):
         c = by_case.get(v["case"])
         sig = "%s:%s" % (pid, v["clause"])
         ctx.add_violation(sig, "%s at step %d of case %s (%s)" % (v["clause"], v["i"], v["case"], c.get("gen") if c else "?"),
-                          {"case": 1, "steps": [strip_expected(s) for s in c["steps"]]} if c else None, engine="subs")
+                          dict({"case": 1, "steps": [strip_expected(s) for s in c["steps"]]},
+                               **({"unit_us": unit_us} if unit_us else {})) if c else None, engine="subs")
     seen = set()
     nt = 0
     for c in all_cases:
@@ -106,10 +113,11 @@ def pipeline(ctx, pid, gens, tconsts, nontrivial, rule):
     ctx.cov["evaluations"] += len(all_cases)
     ctx.cov["distinct_nontrivial"] += nt
     ctx.cov["traces_validated_against_impl"] += len(all_cases)
-    ctx.cov["rule"] = rule
-    ctx.notes["steps_replayed"] = nsteps
-    ctx.notes["drift"] = {"cases_with_L1_mismatch": len(drift), "first": drift[:3]}
-    ctx.notes["other_monitor_verdicts"] = sorted({"%s:%s" % (v["prop"], v["clause"]) for v in verdicts if v["prop"] != pid})
+    ctx.cov["rule"] = rule if name == "subs" or not ctx.cov.get("rule") else ctx.cov["rule"] + "; " + rule
+    sfx = "" if name == "subs" else "_" + name
+    ctx.notes["steps_replayed" + sfx] = nsteps
+    ctx.notes["drift" + sfx] = {"cases_with_L1_mismatch": len(drift), "first": drift[:3]}
+    ctx.notes["other_monitor_verdicts" + sfx] = sorted({"%s:%s" % (v["prop"], v["clause"]) for v in verdicts if v["prop"] != pid})
     if all_cases:
         for idx in (0, len(all_cases) // 2, len(all_cases) - 1):
             c = all_cases[idx]
